@@ -137,6 +137,7 @@ class Real:
         self.log = []
         self.path = path
         self.shape = shape
+        self.kindattr = kind
         self.mod = Host(self.log, delta, path)
         self.hooks = {}        # idx -> hook object (the ONLY strong reference the harness keeps)
         self.kinds = {}        # idx -> 'p' | 's'
@@ -246,6 +247,27 @@ class Real:
             vals = [h2f(x) for x in tok[1].split(",")]
             t = torch.tensor(vals, dtype=torch.float64).reshape(self.shape)
             setattr(self._owner(), self.path.split(".")[-1], t)
+            return "ok"
+        if op == "swap":
+            # replace the object that OWNS the watched attribute (an intermediate object on the dotted path)
+            # by a fresh one carrying the new value; for the specification this is just an assignment
+            vals = [h2f(x) for x in tok[1].split(",")]
+            t = torch.tensor(vals, dtype=torch.float64).reshape(self.shape)
+            parts = self.path.split(".")
+            if len(parts) == 1:
+                setattr(self.mod, parts[0], t)
+                return "ok"
+            holder = self.mod
+            for a in parts[:-2]:
+                holder = getattr(holder, a)
+            fresh = Leaf()
+            if parts[-2] == "sub":
+                fresh.inner = Leaf()
+            if self.kindattr == "buf":
+                fresh.register_buffer(parts[-1], t)
+            else:
+                setattr(fresh, parts[-1], t)
+            setattr(holder, parts[-2], fresh)
             return "ok"
         if op == "mk":
             kind, hp, hq, pp, pq, tr, ev = tok[1], tb(tok[2]), tb(tok[3]), tb(tok[4]), tb(tok[5]), tb(tok[6]), tb(tok[7])
@@ -405,7 +427,7 @@ def shrink_case(ctx, case, kind, max_tries=80):
 
     def fails(c):
         real = seqcheck.exec_real(Real, c)
-        resp = ctx.run_driver(DRIVER, c)
+        resp = ctx.run_driver(DRIVER, drv_lines(c))
         d = compare_case(c, real, resp)
         if d is None or d[1] != kind:
             return False
@@ -426,10 +448,15 @@ def shrink_case(ctx, case, kind, max_tries=80):
     return cur
 
 
+def drv_lines(lines):
+    """`swap` (replace the owner object on the attribute path) is an assignment for the model"""
+    return ["set " + l[5:] if l.startswith("swap ") else l for l in lines]
+
+
 def run_cases(ctx, cases, ex: Exploration, max_findings=8):
     flat = [l for c in cases for l in c]
     reals = [seqcheck.exec_real(Real, c) for c in cases]
-    resp = ctx.run_driver(DRIVER, flat)
+    resp = ctx.run_driver(DRIVER, drv_lines(flat))
     pos = 0
     nfound = 0
     for case, real in zip(cases, reals):
@@ -452,7 +479,7 @@ def run_cases(ctx, cases, ex: Exploration, max_findings=8):
             continue
         small = shrink_case(ctx, case[: d[0] + 1], d[1])
         real2 = seqcheck.exec_real(Real, small)
-        resp2 = ctx.run_driver(DRIVER, small)
+        resp2 = ctx.run_driver(DRIVER, drv_lines(small))
         d2 = compare_case(small, real2, resp2) or d
         ex.findings.append(Finding(
             kind=d2[1], key=key_of(small, d2),
@@ -679,7 +706,7 @@ def value_program(rng, maxlen=16):
         if r < 0.35:
             lines.append("call")
         elif r < 0.5:
-            lines.append(f"set {vals_s(rand_vals(rng, shape, nonzero=neg))}")
+            lines.append(f"{'swap' if rng.random() < 0.4 else 'set'} {vals_s(rand_vals(rng, shape, nonzero=neg))}")
         elif r < 0.6:
             lines.append(f"mode {b(rng.random() < 0.5)}")
         elif r < 0.72 and alive:
@@ -758,7 +785,7 @@ def replay(ctx, data) -> int:
         print("replay file has no op sequence (proof/tie breakage without failing input):", data.get("broken"))
         return 1
     real = seqcheck.exec_real(Real, case)
-    resp = ctx.run_driver(DRIVER, case)
+    resp = ctx.run_driver(DRIVER, drv_lines(case))
     for l, r, d in zip(case, real, resp):
         print(f"{l}\n    real: M {r[0]} || S {r[1]}\n    lean: {d}")
     d = compare_case(case, real, resp)
